@@ -23,7 +23,8 @@ EXPLANATION = (
     "evaluated from the literal itself: it is false exactly when the literal is in the kind's ISO 10303-21 language "
     "followed by a listed delimiter. (R2) E8 threading of `strict` over the resolved call graph (class-hierarchy "
     "expansion of virtual calls) from the file entry points. (R3) constant/plumbing facts. (R4) every threshold test under which a reader merges the severity of a part into the enclosing descriptor holds for SEVERITY_USERMSG, the severity of a lenient substitution. Not decided: the value "
-    "actually written back beyond 'target assigned a constant'.")
+    "actually written back beyond 'target assigned a constant'."
+    " (R5) where a reader classifies an instance by a switch over its severity and sets the node state in the arms (STEPfile::ReadInstance), SEVERITY_USERMSG reaches the same ChangeState calls as SEVERITY_NULL: the instance that received the lenient filler is a complete instance.")
 
 ENTRY = ["STEPfile::ReadExchangeFile", "STEPfile::AppendExchangeFile", "STEPfile::ReadWorkingFile",
          "STEPfile::AppendWorkingFile", "lazyInstMgr::loadInstance"]
@@ -315,6 +316,72 @@ def r4_usermsg_merged(prog, res):
     res.floor("R4.usermsg_passes_merge", "severity-threshold merges in the readers", n, 1)
 
 
+def r5_usermsg_classified_like_clean(prog, res):
+    """An instance whose only remark is a user message (the lenient filler) is an accepted instance.  Where a reader classifies an
+    instance by a switch over its severity and sets the node state (ChangeState) in the arms, SEVERITY_USERMSG must reach the same
+    state changes as SEVERITY_NULL - otherwise the node keeps its first-pass state, is validated again from its printed form when the
+    file is written, and the write can fail although the read accepted the file."""
+    from engines import flatten_switch
+    sev = [it for it in prog.enums.values() if "SEVERITY_USERMSG" in it][0]
+    U, N = sev["SEVERITY_USERMSG"], sev["SEVERITY_NULL"]
+    n = 0
+
+    def reached(items, value):
+        idx = next((i for i, (labels, _) in enumerate(items) if value in labels), None)
+        if idx is None:
+            idx = next((i for i, (labels, _) in enumerate(items) if "default" in labels), None)
+        if idx is None:
+            return None, []
+        out = []
+        for labels, st in items[idx:]:
+            if st is None:
+                continue
+            if st["k"] == "Break":
+                break
+            out.append(st)
+            if st["k"] == "Return" or any(y["k"] == "Break" for y in [st]):
+                break
+        return idx, out
+    for f in prog.all_functions():
+        if f.component not in ("clstepcore", "cleditor"):
+            continue
+        for sw in f.walk():
+            if sw["k"] != "Switch" or not sw.get("ch") or "Severity" not in f.ty(strip(sw["ch"][0]) or {}):
+                continue
+            items = flatten_switch(sw)
+            # statements between labels belong to the preceding label group: regroup so that each group carries all its statements
+            groups = []
+            for labels, st in items:
+                if labels or not groups:
+                    groups.append((labels, [st] if st is not None else []))
+                else:
+                    groups[-1][1].append(st)
+            flat = []
+            for labels, sts in groups:
+                first = True
+                for st in sts:
+                    flat.append((labels if first else [], st))
+                    first = False
+                if not sts:
+                    flat.append((labels, None))
+            states = {}
+            for val in (N, U):
+                _, sts = reached(flat, val)
+                cs = sorted({expr_str(call_args(y)[0]) for st in sts for y in walk(st)
+                             if y["k"] == "Call" and (y.get("fn") or "").endswith("ChangeState") and call_args(y)})
+                states[val] = cs
+            if not states[N] and not states[U]:
+                continue
+            n += 1
+            ok = states[N] == states[U]
+            res.add("R5.usermsg_classified_like_clean", "R5|%s|%s|switch" % (f.relfile(), f.name), f.where(sw), ok,
+                    "SEVERITY_USERMSG reaches the same node state as SEVERITY_NULL (%s)" % ", ".join(states[N]) if ok else
+                    "an instance read with SEVERITY_NULL is moved to %s, one read with SEVERITY_USERMSG (the lenient filler) to %s: it keeps "
+                    "the state of the first pass, so the writer validates it again from its printed form and may refuse to write the file"
+                    % (states[N] or "no state", states[U] or "no state"))
+    res.floor("R5.usermsg_classified_like_clean", "severity switches that set the node state", n, 1)
+
+
 def r3(prog, res):
     sev = [it for it in prog.enums.values() if "SEVERITY_USERMSG" in it][0]
     ok = sev["SEVERITY_USERMSG"] > sev["SEVERITY_INCOMPLETE"] and sev["SEVERITY_NULL"] > sev["SEVERITY_USERMSG"] \
@@ -370,6 +437,7 @@ def r3(prog, res):
 
 def run(prog, res, tier):
     r4_usermsg_merged(prog, res)
+    r5_usermsg_classified_like_clean(prog, res)
     r1(prog, res)
     r2(prog, res)
     r3(prog, res)
